@@ -4,6 +4,7 @@ and calls.  Nothing from the analysed repository is imported or executed.
 from __future__ import annotations
 
 import ast
+import copy
 import hashlib
 import os
 import typing as tp
@@ -424,6 +425,194 @@ def _inline_adjacent_temporaries(tree: ast.AST) -> None:
                     i += 1
 
 
+def _tail_form(stmts: tp.List[ast.stmt], result: ast.expr, ok: tp.List[bool]) -> tp.List[ast.stmt]:
+    """The statement list with every `return e` (all of them in tail position of if / else nests) replaced by `result = e`; statements after an `if` one of whose
+    branches returns are moved into the branches that fall through.  ok[0] is cleared when a return sits where this cannot be done (in a loop, try, with)."""
+    out: tp.List[ast.stmt] = []
+    for i, st in enumerate(stmts):
+        if isinstance(st, ast.Return):
+            out.append(ast.copy_location(ast.Assign(targets=[copy.deepcopy(result)], value=st.value if st.value is not None else ast.Constant(value=None)), st))
+            return out
+        has_ret = any(isinstance(x, ast.Return) for x in ast.walk(st))
+        if not has_ret:
+            out.append(st)
+            continue
+        if isinstance(st, ast.If):
+            rest = stmts[i + 1:]
+            new = ast.copy_location(ast.If(test=st.test, body=_tail_form(st.body + copy.deepcopy(rest), result, ok) or [ast.Pass()],
+                                           orelse=_tail_form(st.orelse + copy.deepcopy(rest), result, ok)), st)
+            out.append(new)
+            return out
+        ok[0] = False
+        return out
+    return out
+
+
+def _inline_single_call_helpers(trees: tp.Sequence[ast.AST]) -> None:
+    """Extract-function, undone: a private helper (`_name`, one definition in core, referenced exactly once, by a call that is the whole value of an assignment,
+    a return or an expression statement) is spliced into its caller — parameters bound to the arguments, locals renamed, `return e` turned into the assignment /
+    return the call stood in.  The definition stays where it is.  Rules that follow one function's paths then see the same program whether or not a block of it
+    was given a name of its own.  Helpers that yield, take *args / **kwargs, or return from inside a loop / try / with are left alone."""
+    defs: tp.Dict[str, tp.List[tp.Tuple[ast.FunctionDef, tp.Optional[ast.ClassDef]]]] = {}
+    refs: tp.Dict[str, int] = {}
+    for tree in trees:
+        for cls in [None] + [c for c in ast.walk(tree) if isinstance(c, ast.ClassDef)]:
+            body = tree.body if cls is None else cls.body
+            for n in body:
+                if isinstance(n, ast.FunctionDef) and n.name.startswith('_') and not n.name.startswith('__'):
+                    defs.setdefault(n.name, []).append((n, cls))
+        for n in ast.walk(tree):
+            if isinstance(n, ast.Attribute):
+                refs[n.attr] = refs.get(n.attr, 0) + 1
+            elif isinstance(n, ast.Name):
+                refs[n.id] = refs.get(n.id, 0) + 1
+            elif isinstance(n, ast.Constant) and isinstance(n.value, str) and n.value.startswith('_') and n.value.isidentifier():
+                refs[n.value] = refs.get(n.value, 0) + 1        # getattr(obj, '_name')
+    ncalls: tp.Dict[str, int] = {}
+    for tree in trees:
+        for n in ast.walk(tree):
+            if isinstance(n, ast.Call):
+                nm_ = n.func.attr if isinstance(n.func, ast.Attribute) else (n.func.id if isinstance(n.func, ast.Name) else None)
+                if nm_ is not None:
+                    ncalls[nm_] = ncalls.get(nm_, 0) + 1
+    # one definition, every reference is a call, at most three call sites (an extracted duplicate block is called from each place it stood)
+    cands = {nm: dl[0] for nm, dl in defs.items() if len(dl) == 1 and 1 <= refs.get(nm, 0) <= 3 and refs.get(nm, 0) == ncalls.get(nm, 0)}
+    if not cands:
+        return
+    site_no = [0]
+    for tree in trees:
+        nested = {id(g) for f in ast.walk(tree) if isinstance(f, (ast.FunctionDef, ast.AsyncFunctionDef)) for b in f.body for g in ast.walk(b)
+                  if isinstance(g, (ast.FunctionDef, ast.AsyncFunctionDef))}
+        for fn in [f for f in ast.walk(tree) if isinstance(f, (ast.FunctionDef, ast.AsyncFunctionDef)) and id(f) not in nested]:
+            own = [x for x in ast.walk(fn)]
+            inner_ids = {id(y) for g in own if isinstance(g, (ast.FunctionDef, ast.AsyncFunctionDef, ast.Lambda)) and g is not fn for y in ast.walk(g)}
+            for holder in own:
+                if id(holder) in inner_ids:
+                    continue        # a wrapper / closure keeps its calls
+                for field in ('body', 'orelse', 'finalbody'):
+                    st = getattr(holder, field, None)
+                    if not isinstance(st, list):
+                        continue
+                    i = 0
+                    while i < len(st):
+                        s = st[i]
+                        i += 1
+                        # a helper call buried in a simple statement (an argument, a subscripted call, a subscript of the target) is first given a name on the line
+                        # before — unless it sits where it is evaluated conditionally or repeatedly — and is then inlined at that assignment
+                        if isinstance(s, (ast.Assign, ast.AugAssign, ast.Return, ast.Expr)):
+                            top_call = getattr(s, 'value', None)
+                            blocked = {id(y) for x in ast.walk(s) if isinstance(x, (ast.Lambda, ast.ListComp, ast.SetComp, ast.DictComp, ast.GeneratorExp, ast.IfExp, ast.BoolOp))
+                                       for y in ast.walk(x) if y is not x}
+                            found = None
+                            for x in ast.walk(s):
+                                if isinstance(x, ast.Call) and x is not top_call and id(x) not in blocked:
+                                    nm_x = x.func.attr if isinstance(x.func, ast.Attribute) else (x.func.id if isinstance(x.func, ast.Name) else None)
+                                    if nm_x in cands:
+                                        found = x
+                                        break
+                            if found is not None:
+                                site_no[0] += 1
+                                tmp = f'_val{site_no[0]}__{nm_x.strip("_")}'
+
+                                class Sub(ast.NodeTransformer):
+                                    def visit_Call(self, node):
+                                        if node is found:
+                                            return ast.copy_location(ast.Name(id=tmp, ctx=ast.Load()), node)
+                                        return self.generic_visit(node)
+                                Sub().visit(s)
+                                st.insert(i - 1, ast.copy_location(ast.Assign(targets=[ast.Name(id=tmp, ctx=ast.Store())], value=found), s))
+                                i -= 1          # revisit: the inserted assignment is now at this position
+                                continue
+                        call = getattr(s, 'value', None) if isinstance(s, (ast.Assign, ast.Return, ast.Expr)) else None
+                        if not isinstance(call, ast.Call):
+                            continue
+                        f = call.func
+                        nm = f.attr if isinstance(f, ast.Attribute) else (f.id if isinstance(f, ast.Name) else None)
+                        if nm not in cands:
+                            continue
+                        h, hcls = cands[nm]
+                        if h is fn:
+                            continue
+                        if isinstance(s, ast.Assign) and not (len(s.targets) == 1 and isinstance(s.targets[0], (ast.Name, ast.Tuple))):
+                            continue
+                        decos = {ast.unparse(d) for d in h.decorator_list}
+                        if decos - {'staticmethod', 'classmethod'}:
+                            continue
+                        a = h.args
+                        if a.vararg or a.kwarg or a.posonlyargs or any(isinstance(x, (ast.Yield, ast.YieldFrom, ast.Await, ast.Global, ast.Nonlocal, ast.FunctionDef, ast.Lambda))
+                                                                          for b in h.body for x in ast.walk(b)):
+                            continue
+                        if any(isinstance(x, ast.Starred) for x in call.args) or any(k.arg is None for k in call.keywords):
+                            continue
+                        params = [x.arg for x in a.args]
+                        defaults: tp.Dict[str, ast.expr] = {}
+                        for prm, d in zip(params[len(params) - len(a.defaults):], a.defaults):
+                            defaults[prm] = d
+                        for prm, d in zip([x.arg for x in a.kwonlyargs], a.kw_defaults):
+                            if d is not None:
+                                defaults[prm] = d
+                        binding: tp.Dict[str, ast.expr] = {}
+                        pos = list(params)
+                        if hcls is not None and 'staticmethod' not in decos:
+                            if not isinstance(f, ast.Attribute) or not pos:
+                                continue
+                            binding[pos.pop(0)] = f.value if 'classmethod' not in decos else ast.Attribute(value=f.value, attr='__class__', ctx=ast.Load()) \
+                                if not (isinstance(f.value, ast.Name) and f.value.id == 'cls') else f.value
+                        if len(call.args) > len(pos):
+                            continue
+                        for prm, arg in zip(pos, call.args):
+                            binding[prm] = arg
+                        bad = False
+                        for kw in call.keywords:
+                            if kw.arg in binding or kw.arg not in params + [x.arg for x in a.kwonlyargs]:
+                                bad = True
+                            binding[kw.arg] = kw.value
+                        for prm in params + [x.arg for x in a.kwonlyargs]:
+                            if prm not in binding:
+                                if prm in defaults:
+                                    binding[prm] = defaults[prm]
+                                else:
+                                    bad = True
+                        if bad:
+                            continue
+                        site_no[0] += 1
+                        suffix = f'__{nm.strip("_")}{site_no[0]}'
+                        hlocals = {x.id for b in h.body for x in ast.walk(b) if isinstance(x, ast.Name) and isinstance(x.ctx, (ast.Store, ast.Del))} | set(binding)
+                        # a parameter bound to a plain name / self keeps that name; everything else local to the helper is renamed
+                        direct = {prm: arg.id for prm, arg in binding.items() if isinstance(arg, ast.Name)
+                                  and not any(isinstance(x, ast.Name) and isinstance(x.ctx, ast.Store) and x.id == prm for b in h.body for x in ast.walk(b))}
+
+                        class Rn(ast.NodeTransformer):
+                            def visit_Name(self, node):
+                                if node.id in direct:
+                                    return ast.copy_location(ast.Name(id=direct[node.id], ctx=node.ctx), node)
+                                if node.id in hlocals:
+                                    return ast.copy_location(ast.Name(id=node.id + suffix, ctx=node.ctx), node)
+                                return node
+                        body = [Rn().visit(copy.deepcopy(b)) for b in h.body
+                                if not (isinstance(b, ast.Expr) and isinstance(b.value, ast.Constant) and isinstance(b.value.value, str))]
+                        pre = [ast.copy_location(ast.Assign(targets=[ast.Name(id=prm + suffix, ctx=ast.Store())], value=copy.deepcopy(arg)), s)
+                               for prm, arg in binding.items() if prm not in direct]
+                        if isinstance(s, ast.Return):
+                            new = pre + body
+                            if not any(isinstance(x, ast.Return) for x in ast.walk(body[-1])) if body else True:
+                                new.append(ast.copy_location(ast.Return(value=None), s))
+                        else:
+                            result = s.targets[0] if isinstance(s, ast.Assign) else ast.Name(id='_unused' + suffix, ctx=ast.Store())
+                            ok = [True]
+                            tail = _tail_form(body, result, ok)
+                            if not ok[0]:
+                                continue
+                            new = pre + tail
+                        st[i - 1:i] = new
+                        i += len(new) - 1
+            ast.fix_missing_locations(fn)
+    for tree in trees:
+        _fold_append_loops(tree)
+        _inline_adjacent_temporaries(tree)
+        ast.fix_missing_locations(tree)
+
+
 class Module:
     def __init__(self, name: str, path: str, relpath: str, src: str):
         self.name = name
@@ -476,6 +665,8 @@ class Program:
                 raise AnalysisError(f'parse failure in {path}: {e}')
             self.modules[m.short] = m
         self.digest = h.hexdigest()[:16]
+        if not os.environ.get('SFA_NO_INLINE'):
+            _inline_single_call_helpers([m.tree for m in self.modules.values()])
         init = os.path.join(self.repo, 'static_frame', '__init__.py')
         with open(init, encoding='utf-8') as f:
             tree = ast.parse(f.read())
